@@ -783,8 +783,8 @@ class URL:
         if authority:
             _add('//')
             _add(authority)
-        elif (scheme and path[:1] in ('', '/') and path[:2] != '//'
-              and self.uses_netloc):
+        elif path[:2] == '//' or (scheme and path[:1] in ('', '/')
+                                   and self.uses_netloc):
             _add('//')
         if path:
             if scheme and authority and path[:1] != '/':
